@@ -139,6 +139,56 @@ def energyScale (st : St Float) : Float :=
 def critS : Crit → Sexp
   | .val b => .list [.atom "val", Sexp.ofBool b] | .err => .atom "err" | .panic => .atom "panic"
 
+/-- Indices of individuals equal to `r`. -/
+def idxOf (pop : Pop Float) (r : Ind Float) : List Nat :=
+  (List.range pop.length).filter (fun i => isAt pop i r)
+
+/-- All legal reactant-index witnesses of a frame, the code's own choice (first match) first.
+Which of several equal individuals reacts is not part of the property: the implementation agrees
+with the model when it agrees for SOME legal witness. -/
+def witnesses (st : St Float) : List (Nat × Nat) :=
+  let first := (firstIdx st, secondIdx st)
+  let others : List (Nat × Nat) := match st.stack with
+    | _ :: [r] :: pop :: _ => (idxOf pop r).map (fun i => (i, 0))
+    | _ :: [r1, r2] :: pop :: _ =>
+      match position pop r1 with
+      | none => []
+      | some i0 =>
+        match positionOther pop i0 r2 with
+        | none => []
+        | some _ => (idxOf pop r1).flatMap (fun i => ((idxOf pop r2).filter (· != i)).map (fun j => (i, j)))
+    | _ => []
+  first :: others.filter (fun w => !(w.1 == first.1 && w.2 == first.2))
+
+def unitTol (x : Float) : Bool := -1e-9 ≤ x && x ≤ 1.0 + 1e-9
+
+/-- Draw witnesses read off the implementation's OUTPUT (instead of a replay of the scripted
+generator in the order the current code draws): the split ratio is the first product's new kinetic
+energy over the energy that was distributed, the buffer share `δ1·δ2` is `1 − buffer'/buffer`.
+Order and number of the generator calls are not part of the property; an implementation agrees
+with the model when SOME legal draws explain its output.  Returned as `[g0, g1, g2, g3]` in the
+model's argument order (`decomp`: dA, δ1, δ2, dB with δ2 = 1). -/
+def derivedDraws (kind : String) (lr : Float) (st st' : St Float) (wi wj : Nat) : List Float :=
+  match st.stack with
+  | pPop :: rPop :: _ :: _ =>
+    let keAt := fun (s : St Float) (i : Nat) => ((s.mols[i]?).map (·.ke)).getD 0.0
+    let robj := fun (k : Nat) => ((rPop[k]?).map (·.obj)).getD 0.0
+    let pobj := fun (k : Nat) => ((pPop[k]?).map (·.obj)).getD 0.0
+    let ratio := fun (e : Float) (dflt : Float) => if e > 0.0 then keAt st' wi / e else dflt
+    if kind == "onwall" then
+      [ratio (robj 0 + keAt st wi - pobj 0) lr]
+    else if kind == "decomp" then
+      let tot := robj 0 + keAt st wi
+      let prods := pobj 0 + pobj 1
+      if prods ≤ tot then [ratio (tot - prods) 0.0, 0.0, 0.0, 0.0]
+      else
+        let deltas := if st.buffer > 0.0 then 1.0 - st'.buffer / st.buffer else 0.0
+        [0.0, deltas, 1.0, ratio (tot + deltas * st.buffer - prods) 0.0]
+    else if kind == "inter" then
+      [ratio ((robj 0 + keAt st wi) + (robj 1 + keAt st wj) - (pobj 0 + pobj 1)) 0.0]
+    else []
+  | _ => []
+
 def reactionCase (kind : String) (args : List Sexp) (implOut : Sexp) : Option Verdict := do
   let st ← st? args
   let lr := (float1 "lr" args).getD 0.0
@@ -147,30 +197,58 @@ def reactionCase (kind : String) (args : List Sexp) (implOut : Sexp) : Option Ve
     let w ← (← field "w" rest).mapM Sexp.float?
     let used ← nat1 "used" rest
     let g := fun (k : Nat) => w.getD k 0.0
-    let (r, legal) : Res Float × Bool :=
+    let run : Nat × Nat → Res Float × Bool := fun (wi, wj) =>
       if kind == "onwall" then
-        let r := onWall lr (g 0) st
+        let r := onWallAt lr (g 0) wi st
         (r, r.draws == 0 || (lr ≤ g 0 && g 0 < 1.0))
       else if kind == "decomp" then
-        let r := decomposition (g 0) (g 1) (g 2) (g 3) st
+        let r := decompositionAt (g 0) (g 1) (g 2) (g 3) wi st
         (r, if r.draws == 1 then unit01 (g 0)
             else if r.draws ≥ 2 then (0.0 ≤ g 1 && g 1 < 1.0 && 0.0 ≤ g 2 && g 2 < 1.0 && (r.draws == 2 || unit01 (g 3)))
             else true)
       else if kind == "inter" then
-        let r := intermolecular (g 0) st
+        let r := intermolecularAt (g 0) wi wj st
         (r, r.draws == 0 || unit01 (g 0))
-      else (synthesis st, true)
-    let ms := r.status
-    let mst := r.st
-    let model := Sexp.list (statusS ms :: stS mst)
+      else (synthesisAt wi wj st, true)
+    -- the same with draws read off the output (legal up to the tolerance of the division)
+    let runDerived : St Float → Nat × Nat → Res Float × Bool := fun st' (wi, wj) =>
+      let d := derivedDraws kind lr st st' wi wj
+      let h := fun (k : Nat) => d.getD k 0.0
+      if kind == "onwall" then
+        let r := onWallAt lr (h 0) wi st
+        (r, r.draws == 0 || (lr - 1e-9 ≤ h 0 && h 0 ≤ 1.0 + 1e-9))
+      else if kind == "decomp" then
+        let r := decompositionAt (h 0) (h 1) (h 2) (h 3) wi st
+        (r, if r.draws == 1 then unitTol (h 0)
+            else if r.draws ≥ 2 then (unitTol (h 1) && (r.draws == 2 || unitTol (h 3)))
+            else true)
+      else if kind == "inter" then
+        let r := intermolecularAt (h 0) wi wj st
+        (r, r.draws == 0 || unitTol (h 0))
+      else (synthesisAt wi wj st, true)
     let implCore := Sexp.list [.atom status, .list (.atom "stack" :: (← field "stack" rest)),
                                .list (.atom "mols" :: (← field "mols" rest)), .list (.atom "buffer" :: (← field "buffer" rest))]
-    let usedOk := used ≥ r.draws && ((used == 0) == (r.draws == 0))
-    let agreeState := Sexp.beq model implCore ||
-      (statusS ms |>.beq (.atom status)) && (match st? rest with
-        | some st' => stClose (energyScale st) mst st'
+    let agrees : Res Float × Bool → Bool := fun (r, legal) =>
+      let model := Sexp.list (statusS r.status :: stS r.st)
+      let usedOk := used ≥ r.draws && ((used == 0) == (r.draws == 0))
+      let agreeState := Sexp.beq model implCore ||
+        (statusS r.status |>.beq (.atom status)) && (match st? rest with
+          | some st' => stClose (energyScale st) r.st st'
+          | none => false)
+      agreeState && legal && usedOk
+    let agreesDerived : Res Float × Bool → Bool := fun (r, legal) =>
+      (statusS r.status |>.beq (.atom status)) && legal && (match st? rest with
+        | some st' => stClose (energyScale st) r.st st'
         | none => false)
-    let agree := agreeState && legal && usedOk
+    let ws := witnesses st
+    let results := ws.map run
+    let resultsD := match st? rest with
+      | some st' => ws.map (runDerived st')
+      | none => []
+    let agree := results.any agrees || resultsD.any agreesDerived
+    -- report the agreeing witness' output, else the code's own choice
+    let (r, _) := ((results.find? agrees).orElse (fun _ => resultsD.find? agreesDerived)).getD (run (firstIdx st, secondIdx st))
+    let model := Sexp.list (statusS r.status :: stS r.st)
     let (holds, cls) := match st? rest with
       | some st' => reactionHolds kind lr st status st'
       | none => (status == "panic" && !wellFormed kind lr st, "unreadable")
@@ -234,12 +312,44 @@ def stepOk (st : Sexp) : Bool × String × Bool :=
     | _, _, _, _, _, _, _, _ => (false, "unevaluated", true)
   | _ => (false, "shape", true)
 
+/-- The (objectives, kinetic energies, buffer) a step starts from / leaves behind. -/
+def stepBefore (st : Sexp) : Option (List Float × List Float × Float) :=
+  match st with
+  | .list [.atom "init", _h, objs, kes, buf] => do pure (← floats? objs, ← floats? kes, ← buf.float?)
+  | .list [.atom "upd", _kind, _h0, objs0, kes0, buf0, _prods, _reacts, _crit, _h1, _objs1, _kes1, _buf1] =>
+    do pure (← floats? objs0, ← floats? kes0, ← buf0.float?)
+  | _ => none
+def stepAfter (st : Sexp) : Option (List Float × List Float × Float) :=
+  match st with
+  | .list [.atom "init", _h, objs, kes, buf] => do pure (← floats? objs, ← floats? kes, ← buf.float?)
+  | .list [.atom "upd", _kind, _h0, _objs0, _kes0, _buf0, _prods, _reacts, _crit, _h1, objs1, kes1, buf1] =>
+    do pure (← floats? objs1, ← floats? kes1, ← buf1.float?)
+  | _ => none
+
+/-- History oracle: between two reaction updates (and between the molecule initialisation and the
+first update) nothing may change the energy: what update k leaves behind is what update k+1 starts
+from (same number of individuals / molecules, same total energy). Returns the number of leaks. -/
+def chainLeaks : List Sexp → Option (List Float × List Float × Float) → Nat
+  | [], _ => 0
+  | s :: ss, last =>
+    let here := match last, stepBefore s with
+      | some (o0, k0, b0), some (o1, k1, b1) =>
+        if o0.length == o1.length && k0.length == k1.length && conserved o0 k0 b0 o1 k1 b1 then 0 else 1
+      | _, _ => 0
+    let next := match stepAfter s with
+      | some x => some x
+      | none => match s with
+        | .list (.atom "pass" :: _) => last
+        | _ => none
+    here + chainLeaks ss next
+
 def runCase (_args : List Sexp) (implOut : Sexp) : Option Verdict := do
   match implOut with
   | .list [.atom status, stepsS] =>
     let steps ← Sexp.tagged? "steps" stepsS
     let rs := steps.map stepOk
-    let bad := rs.filter (fun r => !r.1)
+    let leaks := chainLeaks steps none
+    let bad := rs.filter (fun r => !r.1) ++ (if leaks > 0 then [(false, "leak", true)] else [])
     let nUpd := (steps.filter (fun s => match s with | .list (.atom "upd" :: _) => true | _ => false)).length
     let holds := bad.isEmpty && (status != "ok" || nUpd > 0)
     let cls := match bad with
